@@ -140,6 +140,8 @@ def jobs(tier):
     loopjob = _job("S2-loops-nested-terminators", lambda ch: s2.LoopGen(ch), 2, {"space": "S2-loops", "programs": "outer loop x inner loop x place x terminator x guarded"}, 900)
     passjob = _job("S2-ctl-c2-pass-bodies", lambda ch: s2.CtlGen(ch, 2, 2, 1, pass_bodies=("all" if tier == "quick" else True)), 3,
                    {"space": "S2-ctl", "compounds<=": 2, "terminators<=": 1, "bodies": "pass only (quick) / marker or pass (thorough)"}, 900)
+    passjob2 = _job("S2-ctl-c1-pass-bodies-argtests", lambda ch: s2.CtlGen(ch, 1, 2, 0, arg_tests=True, pass_bodies="all"), 2,
+                    {"space": "S2-ctl", "compounds<=": 1, "bodies": "pass only", "tests": "external calls, comparisons (also of calls), not, attribute, subscript, raising subscript"}, 600)
     forjob = _job("S2-for-target", lambda ch: s2.ForGen(ch), 2, {"space": "S2-for", "programs": "pre-assignment x iterable x body x else x use of the target after the loop"}, 600)
     raisejobs = [
         _job("S2-expr-d1-raising-operands", lambda ch: s2.ExprGen(ch, 1, rich_leaves=True), 2,
@@ -147,7 +149,7 @@ def jobs(tier):
         _job("S2-ctl-c1-raising-tests", lambda ch: s2.CtlGen(ch, 1, 2, 1), 2, {"space": "S2-ctl", "compounds<=": 1}, 600, raising=True),
     ]
     if tier == "quick":
-        return raisejobs + [forjob, loopjob, passjob,
+        return raisejobs + [forjob, loopjob, passjob, passjob2,
             _job("S2-ctl-c2-d2-t1", lambda ch: s2.CtlGen(ch, 2, 2, 1), 3,
                  {"space": "S2-ctl", "compounds<=": 2, "depth<=": 2, "terminators<=": 1, "tests": "external calls"}, 900),
             _job("S2-ctl-c1-argtests", lambda ch: s2.CtlGen(ch, 1, 2, 2, arg_tests=True), 2,
@@ -157,7 +159,7 @@ def jobs(tier):
             _job("S2-expr-d2-quick-inner", lambda ch: s2.ExprGen(ch, 2), 3,
                  {"space": "S2-expr", "expression depth<=": 2, "inner ops": s2.ExprGen.INNER_QUICK, "positions": s2.ExprGen.POSITIONS}, 900),
         ]
-    return raisejobs + [forjob, loopjob, passjob,
+    return raisejobs + [forjob, loopjob, passjob, passjob2,
         _job("S2-ctl-c2-d3-t2", lambda ch: s2.CtlGen(ch, 2, 3, 2), 3,
              {"space": "S2-ctl", "compounds<=": 2, "depth<=": 3, "terminators<=": 2, "tests": "external calls"}, 1800),
         _job("S2-ctl-c2-argtests", lambda ch: s2.CtlGen(ch, 2, 2, 1, arg_tests=True), 3,
